@@ -9,6 +9,7 @@ mod x01;
 mod x02;
 mod x03;
 mod x04;
+mod x05;
 
 mod c01;
 mod c02;
@@ -119,6 +120,7 @@ fn main() {
                     "x01" => x01::replay(c),
                     "x03" => x03::replay(c),
                     "x04" => x04::replay(c),
+                    "x05" => x05::replay(c),
                     "c16" => c16::replay(c),
                     "c17" => c17::replay(c),
                     "c20" => c20::replay(c),
